@@ -94,6 +94,14 @@ def check(spec):
             kw['offsets'] = tuple(spec['offsets'])
         given = dict(idmap)      # one dict object, passed to every call (as a caller adding the same fragment repeatedly does)
         try:
+            if spec.get('retyped_between'):
+                # the same fragment OBJECT extended with, re-parameterised in place, and extended with again: the second time it is what it is then
+                a.extend(b, structure_index_map=dict(idmap), **kw)
+                b.atom_type_labels = ["%s_re" % l for l in b.atom_type_labels]
+                b.atom_type_masses = np.array([float(m_) + 0.5 for m_ in b.atom_type_masses])
+                if len(b.pair_coeffs):
+                    b.pair_coeffs = ["%s refitted" % c_ for c_ in b.pair_coeffs]
+                va, vb = gen.view(a), gen.view(b)
             for _ in range(spec.get('times', 1)):
                 a.extend(b, structure_index_map=given, **kw, **({'verbose': True} if spec.get('verbose') else {}))
         except Exception as e:
@@ -201,6 +209,17 @@ def run(rec, tier, seed):
                     rec.case(repr(spec), group='kinds')
                     if msg:
                         rec.fail('extend', 'extend', "%s on %r" % (msg, spec), spec, 'C11/extend/post')
+    # a fragment object that is re-parameterised between two extensions
+    for n in (2, 3):
+        for c in (True, False):
+            a = dict(n=n, seed=0, terms=True, coeffs=c, extra=False, cell='ortho')
+            b = dict(n=2, seed=4, terms=True, coeffs=c, extra=False, cell=None)
+            for m in ({}, {0: 1}):
+                spec = dict(a=a, b=b, idmap={str(k): v for k, v in m.items()}, times=1, retyped_between=True)
+                msg = check(spec)
+                rec.case(repr(spec), group='retyped-between')
+                if msg:
+                    rec.fail('extend', 'extend', "%s on %r" % (msg, spec), spec, 'C11/extend/post')
     # progress printing switched on (with the default type merging it takes another branch)
     for n in (2, 4):
         a = dict(n=n, seed=0, terms=True, coeffs=True, extra=True, cell='ortho')
